@@ -846,7 +846,23 @@ def rule(prop):
 
 def explain(prop, case, obs, flags):
     from ._base import explain as base
-    return base(prop, case, obs, flags)
+    text = base(prop, case, obs, flags)
+    if not isinstance(obs, dict) or "trace" not in obs:
+        return text
+    # hint only (the verdict comes from Coq): first step that deviates from the documented behaviour
+    sh, names = Shadow(case["n"]), list(case["names"])
+    for k, (op, (links, code)) in enumerate(zip(case["ops"], obs["trace"])):
+        before = [[list(ps), list(cs)] for ps, cs in zip(sh.par, sh.kid)]
+        ok = shadow_apply(sh, names, op)
+        want = [[list(ps), list(cs)] for ps, cs in zip(sh.par, sh.kid)]
+        if ok != (code == 0) or want != links:
+            return (text + f"; first deviating step: #{k} {op}: expected {'accepted' if ok else 'refused'} with links {want}, "
+                    f"observed code {code} with links {links} (links before: {before})")
+    if "off" in obs:
+        for k, ((l1, c1), (l2, c2)) in enumerate(zip(obs["trace"], obs["off"])):
+            if c1 == 0 and (c2 != 0 or l1 != l2):
+                return text + f"; step #{k} {case['ops'][k]}: checks on -> {l1}, checks off -> code {c2}, {l2}"
+    return text
 
 
 def trusted_base(prop):
@@ -858,3 +874,10 @@ def trusted_base(prop):
 
 def partial_clauses(prop):
     return []
+
+
+def assumptions(prop):
+    return ["objects are compared by identity (DAGNode defines neither __eq__ nor __hash__); arguments are lists, tuples, "
+            "sets with <= 1 element, dict views or non-iterables (no one-shot iterators)",
+            "a constructor call that raises in its children assignment leaves the accepted parents assignment in place "
+            "(two assignments; modelled and checked assignment by assignment)"]
